@@ -202,6 +202,18 @@ def end_to_end(ctx, n):
                     break
             pats.append(p)
         opts = gen.rand_opts(ctx.rng)
+        if t % 3 == 2:
+            # a directory whose children alternate between a matching and a non-matching name, stored in index hunks of an
+            # odd number of entries: whatever the alignment, some hunk begins and ends with an excluded entry and has kept
+            # ones in between
+            ext = ctx.rng.choice([".o", "~", ".tmp"])
+            kids = {}
+            for k in range(11):
+                nm = "%x%s" % (k, ext if k % 2 == 0 else ctx.rng.choice([".c", ".h", ""]))
+                kids[nm] = {"k": "f", "data": gen.rand_bytes(ctx.rng, 3).hex(), "mode": 0o644, "mtime": 10**18 + k}
+            tree["c"][ctx.rng.choice(["dd", "src~", "données"])] = {"k": "d", "mode": 0o755, "mtime": 10**18, "c": kids}
+            pats.append("*" + ext)
+            opts = dict(opts, meph=ctx.rng.choice([3, 5]))
         steps = [{"op": "init"}, {"op": "mktree", "path": "src", "tree": tree},
                  {"op": "backup", "opts": opts},
                  {"op": "list", "band": 0},
